@@ -196,7 +196,7 @@ def work(item, tier, seed):
         # coordinate only - the situation of every finite-difference or facet evaluation) and must reproduce
         # the corresponding slice of the one-call evaluation.
         try:
-            for s in (range(len(shifts)) if tier == 'thorough' else (0, 1, len(shifts) - 1)):
+            for s in (range(len(shifts)) if tier == 'thorough' else sorted({0, 1, 2, len(shifts) - 2, len(shifts) - 1})):
                 with warnings.catch_warnings():
                     warnings.simplefilter('ignore')
                     gbs = elem.gbasis(mapping, np.ascontiguousarray(Xall[:, s * nq:(s + 1) * nq]), i)
